@@ -95,7 +95,7 @@ def equal(a, b, _depth=0):
     ta, tb = type(a), type(b)
     if ta is not tb:
         return False
-    if ta is float:
+    if ta is float or isinstance(a, float):
         return (a == b) or (math.isnan(a) and math.isnan(b))
     if ta is decimal.Decimal:
         if a.is_nan() or b.is_nan():
